@@ -19,11 +19,13 @@ macro_rules! scen {
 macro_rules! ubody {
     ($m:ident, $file:literal) => {
         pub mod $m {
+            #[allow(deprecated)]
             pub mod sym {
                 #[allow(dead_code)]
                 pub type S = crate::opq::SymU;
                 include!($file);
             }
+            #[allow(deprecated)]
             pub mod conc {
                 #[allow(dead_code)]
                 pub type S = crate::opq::Cu;
@@ -40,6 +42,7 @@ macro_rules! ubody {
 }
 ubody!(c02u, "u_c02.rs");
 ubody!(c03u, "u_c03.rs");
+ubody!(c19u, "u_c19.rs");
 pub mod c01;
 pub mod c02;
 pub mod c04;
@@ -55,6 +58,7 @@ pub mod c13;
 pub mod c14;
 pub mod c15;
 pub mod c16;
+pub mod c19;
 
 pub fn all() -> Vec<Scenario> {
     let mut v = vec![];
@@ -75,5 +79,7 @@ pub fn all() -> Vec<Scenario> {
     c14::register(&mut v);
     c15::register(&mut v);
     c16::register(&mut v);
+    c19u::register(&mut v);
+    c19::register(&mut v);
     v
 }
